@@ -1,12 +1,12 @@
 package main
 
 import (
-	"strings"
 	"fmt"
 	"go/constant"
 	"go/token"
 	"go/types"
 	"math/big"
+	"strings"
 
 	"golang.org/x/tools/go/ssa"
 )
@@ -171,8 +171,8 @@ func (e *FnExec) alloc(st *State) *Term {
 	return l
 }
 
-func fbin(name string, a, b *Term) *Term  { return UF(name, "F64", a, b) }
-func fcmp(name string, a, b *Term) *Term  { return UF(name, "Bool", a, b) }
+func fbin(name string, a, b *Term) *Term { return UF(name, "F64", a, b) }
+func fcmp(name string, a, b *Term) *Term { return UF(name, "Bool", a, b) }
 func bitOf(x *Term, b int) *Term {
 	return EMod(EDiv(x, BigLit(pow2(b))), IntLit(2))
 }
